@@ -192,8 +192,19 @@ impl Tileset<RawPixels> {
                 None
             } else {
                 let _compressed_length = reader.dword()?;
-                let expected_pixel_count =
-                    (tile_count * (tile_height as u32) * (tile_width as u32)) as usize;
+                // All three factors come from the file: the product can
+                // exceed u32 (and even u64 on paper), so multiply checked.
+                let expected_pixel_count = (tile_count as usize)
+                    .checked_mul(tile_height as usize)
+                    .and_then(|n| n.checked_mul(tile_width as usize))
+                    // the byte count is computed from this later on
+                    .filter(|n| n.checked_mul(pixel_format.bytes_per_pixel()).is_some())
+                    .ok_or_else(|| {
+                        AsepriteParseError::InvalidInput(format!(
+                            "Tileset {} is too large: {} tiles of {}x{} pixels",
+                            id, tile_count, tile_width, tile_height
+                        ))
+                    })?;
                 RawPixels::from_compressed(reader, pixel_format, expected_pixel_count).map(Some)?
             }
         };
